@@ -474,6 +474,10 @@ class NestedFrame(pd.DataFrame):
 
         # join the nested column to the base_column df
         if base_columns is not None:
+            if isinstance(packed_df, pd.Series):
+                # rows of packed_df correspond to the rows of df positionally;
+                # an index join would multiply the rows with repeated index labels
+                return df[base_columns].assign(**{name: packed_df.array})
             return df[base_columns].join(packed_df)
         # or just return the packed_df as a nestedframe if no base cols
         else:
@@ -1124,7 +1128,7 @@ class NestedFrame(pd.DataFrame):
                 nested_col = pack_lists(rename_df, name=layer)
                 results_nf = results_nf[
                     [col for col in results_nf.columns if not col.startswith(f"{layer}.")]
-                ].join(nested_col)
+                ].assign(**{layer: nested_col.array})
 
         return results_nf
 
